@@ -5,6 +5,7 @@ package c12
 // property states and with the VM's own item counter.
 
 import (
+	"errors"
 	"fmt"
 	"math/big"
 	"runtime/debug"
@@ -12,6 +13,9 @@ import (
 	"unsafe"
 
 	"github.com/nspcc-dev/neo-go/pkg/core/fee"
+	"github.com/nspcc-dev/neo-go/pkg/crypto/hash"
+	"github.com/nspcc-dev/neo-go/pkg/smartcontract/callflag"
+	"github.com/nspcc-dev/neo-go/pkg/smartcontract/nef"
 	"github.com/nspcc-dev/neo-go/pkg/smartcontract/scparser"
 	"github.com/nspcc-dev/neo-go/pkg/util"
 	"github.com/nspcc-dev/neo-go/pkg/vm"
@@ -232,9 +236,73 @@ func reachesAfterStore(val, container stackitem.Item, seen map[stackitem.Item]st
 	return reaches(val, container, seen)
 }
 
+// subScript is a script that the main script (or a later sub-script) can load
+// as a new script context through the harness loader syscall, the way
+// System.Contract.Call / System.Runtime.LoadScript create contexts on a node.
+type subScript struct {
+	Script []byte
+	NArgs  int // arguments the script was generated for
+	Hash   util.Uint160
+}
+
+const loaderTag = 0xC1
+
+// loaderID encodes a loader syscall: sub-script k, mode, number of arguments
+// moved from the caller's stack to the new context's stack.
+func loaderID(k, mode, nargs int) uint32 {
+	return uint32(k&0xff) | uint32(mode&0xff)<<8 | uint32(nargs&0xff)<<16 | loaderTag<<24
+}
+
+const (
+	ldHash    = iota // LoadScriptWithHash: exactly one return value
+	ldVoid           // LoadNEFMethod(hasReturn=false): no return value
+	ldRet            // LoadNEFMethod(hasReturn=true)
+	ldDynamic        // LoadDynamicScript: zero or one value (Null is added), shares the stack when it is empty
+	ldFlags          // LoadScriptWithFlags: any number of return values
+	nLoadModes
+)
+
+// installLoader gives the VM one syscall that loads sub-scripts with the
+// exported context-loading API of pkg/vm (no chain, no contracts).
+func installLoader(v *vm.VM, subs []subScript) {
+	if len(subs) == 0 {
+		return
+	}
+	v.SyscallHandler = func(v *vm.VM, id uint32) error {
+		k, mode, nargs := int(id&0xff), int(id>>8&0xff), int(id>>16&0xff)
+		if id>>24 != loaderTag || k >= len(subs) || mode >= nLoadModes {
+			return errors.New("unknown syscall")
+		}
+		es := v.Estack()
+		if es.Len() < nargs {
+			return errors.New("not enough arguments")
+		}
+		args := make([]stackitem.Item, nargs)
+		for i := range args {
+			args[i] = es.Pop().Item()
+		}
+		sub := &subs[k]
+		switch mode {
+		case ldHash:
+			v.LoadScriptWithHash(sub.Script, sub.Hash, callflag.All)
+		case ldVoid, ldRet:
+			v.LoadNEFMethod(&nef.File{Script: sub.Script}, nil, v.GetCurrentScriptHash(), sub.Hash, callflag.All, mode == ldRet, 0, -1, nil, nil, false)
+		case ldDynamic:
+			v.LoadDynamicScript(sub.Script, callflag.All)
+		default:
+			v.LoadScriptWithFlags(sub.Script, callflag.All)
+		}
+		for i := len(args) - 1; i >= 0; i-- {
+			v.Estack().PushItem(args[i])
+		}
+		return nil
+	}
+}
+
 // caseCfg is everything that defines one execution.
 type caseCfg struct {
 	Script   []byte
+	Subs     []subScript
 	Priced   bool
 	BaseFee  int64 // picoGAS per fee unit (the ExecFeeFactor*multiplier of a node)
 	GasLimit int64 // datoshi, -1 unlimited
@@ -257,9 +325,12 @@ type outcome struct {
 	OverCount   int // steps with refs > walked (only legal with a cycle)
 	Correct     bool
 	StaticPanic bool
+	Loads       int // loader syscalls attempted
 	OffChecked  int
 	OpCount     [256]uint32
 	Viol        *violation
+	Leak        *violation // the abandoned-evaluation-stack shape (execution goes on, exactness is off afterwards)
+	Abandoned   bool
 }
 
 type violation struct {
@@ -328,9 +399,10 @@ func safeCorrect(script []byte) (ok bool, panicked bool) {
 }
 
 type monitor struct {
-	w      *walker
-	seen   map[stackitem.Item]struct{}
-	bounds []bool
+	preStacks []*vm.Stack
+	w         *walker
+	seen      map[stackitem.Item]struct{}
+	bounds    []bool
 }
 
 func newMonitor() *monitor {
@@ -379,18 +451,40 @@ func (m *monitor) run(c *caseCfg) (o outcome) {
 			return
 		}
 	}
+	// sub-scripts have their own boundaries (only those the static check accepts)
+	var subBounds map[util.Uint160][]bool
+	var mainHash util.Uint160
+	if len(c.Subs) > 0 {
+		subBounds = map[util.Uint160][]bool{}
+		mainHash = hash.Hash160(script)
+		for i := range c.Subs {
+			if ok, _ := safeCorrect(c.Subs[i].Script); ok {
+				func() {
+					defer func() { _ = recover() }()
+					if b := boundaries(c.Subs[i].Script, nil); b != nil {
+						subBounds[c.Subs[i].Hash] = b
+					}
+				}()
+			}
+		}
+	}
 	v := vm.New()
 	if c.Priced {
 		base := c.BaseFee
 		v.SetPriceGetter(func(op opcode.Opcode, _ []byte) int64 { return feeBase[op] * base })
 	}
 	v.SetGasLimit(c.GasLimit)
+	installLoader(v, c.Subs)
 	badOff, lastOp, curOp := -1, opcode.NOP, opcode.NOP
-	v.SetOnExecHook(func(_ util.Uint160, off int, op opcode.Opcode) {
+	v.SetOnExecHook(func(h util.Uint160, off int, op opcode.Opcode) {
 		lastOp, curOp = curOp, op
-		if bounds != nil {
+		b := bounds
+		if subBounds != nil && h != mainHash {
+			b = subBounds[h]
+		}
+		if b != nil {
 			o.OffChecked++
-			if (off < 0 || off >= len(bounds) || !bounds[off]) && badOff < 0 {
+			if (off < 0 || off >= len(b) || !b[off]) && badOff < 0 {
 				badOff = off
 			}
 		}
@@ -414,8 +508,11 @@ func (m *monitor) run(c *caseCfg) (o outcome) {
 		ctx := v.Context()
 		ip := ctx.NextIP()
 		op := opcode.RET
-		if ip >= 0 && ip < len(script) {
-			op = opcode.Opcode(script[ip])
+		if prog := ctx.Program(); ip >= 0 && ip < len(prog) {
+			op = opcode.Opcode(prog[ip])
+		}
+		if op == opcode.SYSCALL {
+			o.Loads++
 		}
 		// "a cyclic structure was built" is decided from the operands, before the step.
 		if !o.EverCyclic {
@@ -434,6 +531,15 @@ func (m *monitor) run(c *caseCfg) (o outcome) {
 					if reachesAfterStore(val, cont, m.seen, &budget) {
 						o.EverCyclic = true
 					}
+				}
+			}
+		}
+		preDepth := len(v.Istack())
+		if len(c.Subs) > 0 && !o.EverCyclic && !o.Abandoned {
+			m.preStacks = m.preStacks[:0]
+			for _, cx := range v.Istack() {
+				if s := cx.Estack(); len(m.preStacks) == 0 || m.preStacks[len(m.preStacks)-1] != s {
+					m.preStacks = append(m.preStacks, s)
 				}
 			}
 		}
@@ -511,8 +617,29 @@ func (m *monitor) run(c *caseCfg) (o outcome) {
 			fail("try-nesting-exceeded:after-"+op.String(), fmt.Sprintf("%d nested try blocks after a non-faulting %s (limit %d)", o.MaxTry, op, limTryDepth), ip, op)
 		case refs < w.count:
 			fail("item-counter-undercounts:after-"+op.String(), fmt.Sprintf("VM item counter %d < %d items actually reachable after %s (cycle built so far: %v)", refs, w.count, op, o.EverCyclic), ip, op)
-		case refs != w.count && !o.EverCyclic:
-			fail("item-counter-overcounts-without-cycle:after-"+op.String(), fmt.Sprintf("VM item counter %d > %d items actually reachable after %s although no cyclic structure was ever built", refs, w.count, op), ip, op)
+		case refs != w.count && !o.EverCyclic && !o.Abandoned:
+			// one specific shape gets its own signature: an exception unwound through a
+			// script context that had its own, non-empty evaluation stack.
+			left := 0
+			if len(c.Subs) > 0 && op != opcode.RET && len(ist) < preDepth {
+				for _, ps := range m.preStacks {
+					alive := ps == v.Estack()
+					for _, cx := range ist {
+						alive = alive || cx.Estack() == ps
+					}
+					if !alive {
+						left += ps.Len()
+					}
+				}
+			}
+			if left > 0 {
+				o.Abandoned = true
+				o.Leak = &violation{Sig: "item-counter-overcounts-without-cycle:exception-unwinds-script-context-with-nonempty-evaluation-stack",
+					Detail: fmt.Sprintf("after %s unwound %d frame(s) to a handler in an outer script context, the VM item counter is %d but only %d items are reachable: the %d element(s) left on the unloaded context's own evaluation stack stay counted (no cyclic structure was ever built)", op, preDepth-len(ist), refs, w.count, left),
+					Step:   o.Steps, IP: ip, Op: op.String()}
+			} else {
+				fail("item-counter-overcounts-without-cycle:after-"+op.String(), fmt.Sprintf("VM item counter %d > %d items actually reachable after %s although no cyclic structure was ever built", refs, w.count, op), ip, op)
+			}
 		}
 		if o.Viol != nil {
 			return
@@ -552,6 +679,7 @@ func runPlain(c *caseCfg) (state string, gas int64, viol *violation) {
 		v.SetPriceGetter(func(op opcode.Opcode, _ []byte) int64 { return feeBase[op] * base })
 	}
 	v.SetGasLimit(c.GasLimit)
+	installLoader(v, c.Subs)
 	v.Load(c.Script)
 	v.SetGasLimit(c.GasLimit)
 	var pan any
